@@ -623,11 +623,25 @@ Qed.
 
 (* ... with a session expiry the endpoint refuses: the protocol error is the answer to that very packet *)
 Lemma peer_disconnect_v5_violation reason se s :
-  v5 (c_ s) = true -> 0 < se ->
+  v5 (c_ s) = true -> 0 < se -> (is_client s = true \/ zse (c_ s) = true) ->
   let r := proto_body (KDisconnect reason se) s in
   snd r = ODone (RErr (EProto 130)) /\ dsent (p_ (fst r)) = dsent (p_ s) /\ wire (i_ (fst r)) = wire (i_ s).
 Proof.
-  intros Hv Hs. apply N.ltb_lt in Hs. bodies. rewrite Hv, Hs. repeat dm; pcalc; auto.
+  intros Hv Hs Hz. apply N.ltb_lt in Hs. bodies. rewrite Hv, Hs.
+  destruct (is_client s) eqn:Hc; cbv beta iota zeta.
+  - pcalc. auto.
+  - destruct Hz as [Hz|Hz]; [discriminate|]. rewrite Hz. cbn [andb]. pcalc. auto.
+Qed.
+
+(* a server whose CONNECT asked for a non-zero session expiry accepts a DISCONNECT that changes it
+   [MQTT-3.14.2-22 concerns zero-expiry sessions only] *)
+Lemma peer_disconnect_v5_expiry_allowed reason se s :
+  v5 (c_ s) = true -> is_client s = false -> zse (c_ s) = false ->
+  let r := proto_body (KDisconnect reason se) s in
+  snd r = OCtl (4, 0) /\ dsent (p_ (fst r)) = true /\ wire (i_ (fst r)) = wire (i_ s).
+Proof.
+  intros Hv Hc Hz. bodies. rewrite Hv, Hc, Hz. rewrite andb_false_r. cbv beta iota zeta.
+  repeat dm; pcalc; rewrite ?io_close_wire; cbn [i_ up_p]; repeat split; auto.
 Qed.
 
 Lemma peer_disconnect_v3 reason se s :
